@@ -222,6 +222,22 @@ pub fn prop_total(bytes: &[u8]) -> String {
         }
     }
     let mut m = rosu_map::from_bytes::<Beatmap>(bytes).unwrap();
+    // the rest of the public surface of a decoded map must not panic either (accessors that compute curves, sample
+    // names, break durations); the harness turns a panic into a FAIL of this request
+    {
+        let mut bufs = rosu_map::section::hit_objects::CurveBuffers::default();
+        let mut acc = 0u64;
+        for h in m.clone().hit_objects.iter_mut() {
+            acc ^= h.end_time().to_bits() ^ h.clone().end_time_with_bufs(&mut bufs).to_bits() ^ u64::from(h.new_combo());
+            for s in h.samples.iter() {
+                acc ^= s.lookup_name().to_string().len() as u64;
+            }
+        }
+        for b in &m.breaks {
+            acc ^= b.duration().to_bits() ^ u64::from(b.has_effect());
+        }
+        std::hint::black_box(acc);
+    }
     match m.encode_to_string() {
         Ok(t) => {
             // the text is a `String`, hence valid UTF-8; it must also decode again without error
